@@ -257,7 +257,7 @@ func flatten(t *T) (shape string, vals []string) {
 		fleaf(t.F),
 		fleaf(float64(t.G)),
 		sleaf(t.S),
-		fmt.Sprintf("i%d", t.Tm.UTC().UnixNano()),
+		timeLeaf(t.Tm),
 		fmt.Sprintf("i%d", t.I8),
 		fmt.Sprintf("u%d", t.U16),
 		fmt.Sprintf("i%d", t.Emb.Y),
@@ -311,6 +311,8 @@ func (p Probe) value() (interface{}, string) {
 		return f, fleaf(f)
 	case "string":
 		return unhexs(p.S), sleaf(unhexs(p.S))
+	case "nstring":
+		return namedString(unhexs(p.S)), "onstring"
 	case "time":
 		return time.Unix(0, p.I).UTC(), fmt.Sprintf("i%d", p.I)
 	case "nil":
@@ -324,3 +326,17 @@ func (p Probe) value() (interface{}, string) {
 	}
 	panic("unknown probe type " + p.T)
 }
+
+// timeLeaf: a time as its UnixNano.  The zero time.Time is outside the representable range and
+// wraps to a number that is ALSO the UnixNano of an ordinary date (1754-08-30): that date must not
+// pass for the zero time.
+func timeLeaf(t time.Time) string {
+	n := t.UTC().UnixNano()
+	if !t.IsZero() && n == (time.Time{}).UnixNano() {
+		return fmt.Sprintf("i%d!not-the-zero-time", n)
+	}
+	return fmt.Sprintf("i%d", n)
+}
+
+// namedString: a defined type whose underlying type is string (not an index key type)
+type namedString string
